@@ -22,8 +22,9 @@ Disc == [hdfs : BOOLEAN,          \* sector 1 byte 6 bit 3
          flen0 : BOOLEAN,         \* that file's length is zero (it still "starts there")
          spt18 : BOOLEAN,         \* sector 16 byte 3 = 18
          totok : BOOLEAN,         \* sector 16 total in {630, 720, 1440}
-         vols : {"none", "valid", "valid1", "invalid"},   \* volumes listed in sector 16 and their catalogues
-                                  \* (valid1: all valid, one of them of the minimum size, a single track)
+         vols : {"none", "valid", "valid1", "invalid", "invalid-mid"},   \* volumes listed in sector 16 and their catalogues
+                                  \* (valid1: all valid, one of them of the minimum size, a single track; invalid-mid: a volume
+                                  \* with an invalid catalogue followed, in track order, by one with a valid catalogue)
          lastok : BOOLEAN,        \* the last sector the Opus table promises is present in the image
          cat0 : BOOLEAN,          \* sectors 0/1 hold a valid catalogue
          total : Totals]
@@ -41,7 +42,7 @@ RVariant(x) == IF x.hdfs THEN "HDFS"
 MWatford(x) == /\ ~(x.start # 0 /\ x.start = 2)       \* 10-bit comparison (repaired; was: low byte only)
                /\ x.aa2
 MOpus(x) == /\ x.spt18
-            /\ x.vols # "invalid"        \* OpusDiscCatalogue construction + every listed catalogue valid
+            /\ x.vols \notin {"invalid", "invalid-mid"}        \* OpusDiscCatalogue construction + every listed catalogue valid
             /\ x.vols # "none"           \* zero volumes rejected
             /\ x.lastok
             /\ x.totok
